@@ -3,6 +3,7 @@ package props
 import (
 	"fmt"
 	"os"
+	"runtime"
 	"runtime/debug"
 	"sort"
 	"strings"
@@ -142,8 +143,119 @@ func strVal(i int) string {
 	}
 }
 
+// genericInstance builds the instance adapter for StrMap[V]; enc makes a fresh value for a model index,
+// dec maps a value back to the comparable model number (see modelVal), zero must be the zero V.
+func genericInstance[V comparable](enc func(int) V, dec func(V) int) *smInstance {
+	m := strmap.New[V]()
+	var zero V
+	return &smInstance{
+		load: func(kk []string, vals []int, fromMap, mismatch bool) error {
+			vv := make([]V, len(vals))
+			for i, v := range vals {
+				vv[i] = enc(v)
+			}
+			if mismatch {
+				return m.LoadFromSlice(kk, append(vv, enc(1)))
+			}
+			if fromMap {
+				mm := make(map[string]V, len(kk))
+				for i, k := range kk {
+					mm[k] = vv[i]
+				}
+				return m.LoadFromMap(mm)
+			}
+			return m.LoadFromSlice(kk, vv)
+		},
+		get: func(k string) (int, bool) {
+			p, ok := m.Get(k)
+			if !ok {
+				if p != zero {
+					return -888888, false
+				}
+				return 0, false
+			}
+			return dec(p), ok
+		},
+		length: m.Len,
+		items: func() (map[string]int, int, error) {
+			out := map[string]int{}
+			n := m.Len()
+			for i := 0; i < n; i++ {
+				k, v := m.Item(i)
+				if _, dup := out[k]; dup {
+					return nil, n, fmt.Errorf("Item enumerates key %q twice", k)
+				}
+				out[string([]byte(k))] = dec(v)
+			}
+			return out, n, nil
+		},
+	}
+}
+
+type valMixed struct {
+	S string
+	P *int64
+	N int32
+}
+
+type valOdd struct {
+	A, B int32
+	C    bool
+}
+
+// vtypes 4..11: value types that contain pointers (the map must keep them alive) and value types whose
+// size is not a multiple of 8 or zero (element stride and padding of the item table).
+const nVTypes = 12
+
+func pointerVType(vt int) bool { return vt == 4 || vt == 5 || vt == 6 }
+
 func newInstance(vtype int) *smInstance {
 	switch vtype {
+	case 4:
+		return genericInstance(func(i int) string { return fmt.Sprintf("heap-value-%d-%s", i, strings.Repeat("x", i%40)) },
+			func(s string) int {
+				var i int
+				if _, err := fmt.Sscanf(s, "heap-value-%d-", &i); err != nil || s != fmt.Sprintf("heap-value-%d-%s", i, strings.Repeat("x", i%40)) {
+					return -777777
+				}
+				return i
+			})
+	case 5:
+		return genericInstance(func(i int) *[4]int { p := new([4]int); *p = [4]int{i, i + 1, i + 2, ^i}; return p },
+			func(p *[4]int) int {
+				if p == nil || p[1] != p[0]+1 || p[2] != p[0]+2 || p[3] != ^p[0] {
+					return -777777
+				}
+				return p[0]
+			})
+	case 6:
+		return genericInstance(func(i int) valMixed { n := int64(i) * 3; return valMixed{S: fmt.Sprintf("s%d", i), P: &n, N: int32(i)} },
+			func(v valMixed) int {
+				if v.P == nil || *v.P != int64(v.N)*3 || v.S != fmt.Sprintf("s%d", v.N) {
+					return -777777
+				}
+				return int(v.N)
+			})
+	case 7:
+		return genericInstance(func(i int) bool { return i&1 == 1 }, func(b bool) int {
+			if b {
+				return 1
+			}
+			return 0
+		})
+	case 8:
+		return genericInstance(func(i int) int32 { return int32(i) }, func(v int32) int { return int(v) })
+	case 9:
+		return genericInstance(func(i int) struct{} { return struct{}{} }, func(struct{}) int { return 0 })
+	case 10:
+		return genericInstance(func(i int) valOdd { return valOdd{int32(i), int32(^i), i&1 == 1} }, func(v valOdd) int {
+			if v.B != ^v.A || v.C != (v.A&1 == 1) {
+				return -777777
+			}
+			return int(v.A)
+		})
+	case 11:
+		return genericInstance(func(i int) [3]byte { return [3]byte{byte(i), byte(i >> 8), byte(i >> 16)} }, func(v [3]byte) int { return int(v[0]) | int(v[1])<<8 | int(v[2])<<16 })
 	case 0:
 		m := strmap.New[int]()
 		return &smInstance{
@@ -265,8 +377,15 @@ func newInstance(vtype int) *smInstance {
 }
 
 func modelVal(vtype, i int) int {
-	if vtype == 2 {
+	switch vtype {
+	case 2:
 		return int(evid.Hash64([]byte(strVal(i))) & 0x3fffffff)
+	case 7:
+		return i & 1
+	case 9:
+		return 0
+	case 11:
+		return i & 0xffffff
 	}
 	return i
 }
@@ -385,6 +504,20 @@ func checkStrMap(c StrMapCase, cv *cov) (v *evid.Violation) {
 				if err := inst.load(keys, vals, ld.FromMap, false); err != nil {
 					v = evid.Failf("load %d (instance %d): error %v for %d distinct keys", li, rep, err, len(keys))
 					return
+				}
+				if pointerVType(c.VType) && rep == 0 {
+					// the loaded values are referenced by the map only: collect garbage and reuse freed memory
+					runtime.GC()
+					churn := make([][]byte, 0, 256)
+					for i := 0; i < 256; i++ {
+						b := make([]byte, 16+i%80)
+						for j := range b {
+							b[j] = 0xDD
+						}
+						churn = append(churn, b)
+					}
+					runtime.GC()
+					_ = churn
 				}
 				old := make([]string, 0, len(model))
 				for k := range model {
@@ -522,7 +655,7 @@ func genKeyFam(t *rapid.T, bulkMax int) KeyFam {
 
 func genStrMapCase(t *rapid.T) StrMapCase {
 	bulk := evid.Pick(2000, 2000)
-	c := StrMapCase{VType: rapid.SampledFrom([]int{0, 0, 1, 2, 2, 3}).Draw(t, "vtype")}
+	c := StrMapCase{VType: rapid.SampledFrom([]int{0, 0, 1, 2, 2, 3, 4, 5, 6, 7, 8, 9, 10, 11}).Draw(t, "vtype")}
 	nl := rapid.SampledFrom([]int{0, 1, 1, 2, 3, 4, 6}).Draw(t, "nloads")
 	for i := 0; i < nl; i++ {
 		ld := SMLoad{FromMap: rapid.Bool().Draw(t, "fromMap"), ValSalt: rapid.IntRange(0, 1000).Draw(t, "salt")}
@@ -543,14 +676,14 @@ func genStrMapCase(t *rapid.T) StrMapCase {
 }
 
 func TestC07_Random(t *testing.T) {
-	rec := evid.New("C07", "c07_random", "rapid: load histories of 0..6 loads (from map / from slices, growing and shrinking, zero keys, failing loads with mismatched slice lengths) on StrMap[int], StrMap[struct], Str2Str and strstore; key sets are unions of families (empty key, prefix chains, one stem with all 1-byte extensions, keys differing in first/last byte, embedded NUL/0xff, lengths 0..300 and 5000, counter keys up to 2000, raw bytes); probes = every loaded key, keys of the previous load, each key truncated/extended/flipped, concatenations, raw bytes; every case on 4 fresh instances (fresh hash seeds); oracle = Go map; non-trivial = >= 2 loads, prefix-related keys, or the never-loaded/empty state")
+	rec := evid.New("C07", "c07_random", "rapid: load histories of 0..6 loads (from map / from slices, growing and shrinking, zero keys, failing loads with mismatched slice lengths) on StrMap[V] for V in {int, pointer-free struct, string, pointer, struct holding a string and a pointer (these three are referenced by the map only, followed by garbage collections and allocation churn), bool, int32, struct{}, a 9-byte struct, [3]byte}, Str2Str and strstore; key sets are unions of families (empty key, prefix chains, one stem with all 1-byte extensions, keys differing in first/last byte, embedded NUL/0xff, lengths 0..300 and 5000, counter keys up to 2000, raw bytes); probes = every loaded key, keys of the previous load, each key truncated/extended/flipped, concatenations, raw bytes; every case on 4 fresh instances (fresh hash seeds); oracle = Go map; non-trivial = >= 2 loads, prefix-related keys, or the never-loaded/empty state")
 	defer rec.Flush()
 	rec.Assume("hash/maphash seeds are chosen by the runtime per instance and are not injectable; each case runs on 4 fresh instances")
 	runRapid(t, rec, "c07_strmap", evid.Pick(6000, 40000), genStrMapCase, checkStrMap)
 }
 
 func TestC07_Sizes(t *testing.T) {
-	rec := evid.New("C07", "c07_sizes", "enumeration: every key count 0..100 and {127,128,191,192,193,255,256,383,384,385,1000,1535,1536,1537,5000} (so every small entry of the slot-prime table is used) x 3 map flavours x {fresh, reload after a bigger load, reload after a smaller load}, 8 instances each; never-loaded instances of every flavour; (thorough) 100000-key loads; distinct by construction")
+	rec := evid.New("C07", "c07_sizes", "enumeration: every key count 0..100 and {127,128,191,192,193,255,256,383,384,385,1000,1535,1536,1537,5000} (so every small entry of the slot-prime table is used) x 6 map flavours (int, struct, Str2Str, bool, struct{}, 9-byte struct values) x {fresh, reload after a bigger load, reload after a smaller load}, 8 instances each; never-loaded instances of every flavour; (thorough) 100000-key loads; distinct by construction")
 	defer rec.Flush()
 	sizes := []int{}
 	for n := 0; n <= 100; n++ {
@@ -589,7 +722,7 @@ func TestC07_Sizes(t *testing.T) {
 		if n > 5000 {
 			reps = 2
 		}
-		for vt := 0; vt < 3; vt++ {
+		for _, vt := range []int{0, 1, 2, 7, 9, 10} {
 			run(StrMapCase{VType: vt, Reps: reps, Loads: []SMLoad{{Fams: []KeyFam{{Kind: "counter", N: n}}}}}, b)
 			run(StrMapCase{VType: vt, Reps: reps, Loads: []SMLoad{{Fams: []KeyFam{{Kind: "counter", N: 2*n + 9, Stem: "x"}}}, {Fams: []KeyFam{{Kind: "counter", N: n}}, FromMap: true}}}, b)
 			run(StrMapCase{VType: vt, Reps: reps, Loads: []SMLoad{{Fams: []KeyFam{{Kind: "counter", N: n / 3}}}, {Mismatch: true, Fams: []KeyFam{{Kind: "counter", N: 5}}}, {Fams: []KeyFam{{Kind: "counter", N: n, Stem: "a"}, {Kind: "empty"}}}}}, b)
